@@ -17,6 +17,8 @@ Inductive dclass :=
 | DefaultDtypeResult.   (* result returned in the default dtype (finding F16e) *)
 
 Definition reviewed_sites : list (string * string * string * dclass) := [
+ ("cheetah/converters/bmad.py", "convert_element", "torch.tensor( bmad_parsed[""angle""] if ""angle"" in bmad_parsed else bmad_parsed.get(""g"", 0.0) * bmad_parsed[""l""] )", DefaultDtypeThenCast);
+ ("cheetah/converters/bmad.py", "convert_element", "torch.tensor(bmad_parsed.get(""e1"", 0.0))", DefaultDtypeThenCast);
  ("cheetah/accelerator/segment.py", "Segment.length", "torch.tensor(0.0)", PlaceholderLength);
  ("cheetah/accelerator/element.py", "Element.__init__", "torch.tensor(0.0)", PlaceholderLength);
  ("cheetah/accelerator/screen.py", "Screen.pixel_bin_edges", "torch.linspace( -self.resolution[0] * self.pixel_size[0] / 2, self.resolution[0] * self.pixel_size[0] / 2, int(self.effective_resolution[0]) + 1, )", Float32Grid);
